@@ -103,8 +103,8 @@ Proof. unfold seed. cbv zeta. change (build_layout p false) with lay. cbn [bind]
     destruct (walk_index_total names NS y (match afind (l_sstart lay) sn with Some b => b | None => 0 end) By) as [y2 Ey].
     rewrite Ex, Ey. eauto. }
   destruct P2 as [g3 E3]. rewrite E3. cbn [bind].
-  pose proof (phase3_bases p (p_bases p)) as P3. cbv zeta in P3. rewrite P3. clear P3.
-  pose proof (phase3_sups p (p_sups p)) as P3. cbv zeta in P3. rewrite P3. clear P3.
+  pose proof (phase3_bases p lay (p_bases p)) as P3. cbv zeta in P3. rewrite P3. clear P3.
+  pose proof (phase3_sups p lay (p_sups p)) as P3. cbv zeta in P3. rewrite P3. clear P3.
   (* equal statements *)
   match goal with |- exists g, (do g6 <- ?e; _) = _ => assert (P4 : exists g6, e = OK g6) end.
   { apply fold_ok. intros g0 eqlist Hin. cbn [bind]. destruct eqlist as [|first rest]; [eauto|].
